@@ -51,7 +51,31 @@ def main(argv):
         import extract
         extract.regenerate()
         run = common.Run(pid, tier, seed)
-        return mod.check(run)
+        try:
+            return mod.check(run)
+        except common.InfraError:
+            raise
+        except Exception as e:  # noqa
+            # A generator (not a protected case) hit an exception.  If it was raised *inside the library* — the generators only
+            # make calls that are valid on the unchanged tree — or if violations were already recorded, this is a verdict
+            # about the code, not an infrastructure failure: report what there is.
+            tb = traceback.extract_tb(sys.exc_info()[2])
+            root = os.path.realpath(common.REPO) + os.sep
+            in_impl = bool(tb) and os.path.realpath(tb[-1].filename).startswith(root)
+            if not (in_impl or run.violations or run.disagreements):
+                raise
+            traceback.print_exc()
+            if in_impl:
+                where = f'{os.path.relpath(tb[-1].filename, common.REPO)}:{tb[-1].lineno} in {tb[-1].name}'
+                caller = next((f for f in reversed(tb) if not os.path.realpath(f.filename).startswith(root)), tb[0])
+                run.report('generator/library-call-raises',
+                           f'a call the generators make on every run ({os.path.basename(caller.filename)}:{caller.lineno}: '
+                           f'`{(caller.line or "").strip()[:120]}`) now raises {type(e).__name__}: {str(e)[:200]}',
+                           {'stream': 'generator', 'line': (caller.line or '').strip(), 'impl': common.err_name(e),
+                            'spec': 'no exception', 'raised_at': where, 'message': str(e)[:500]})
+            return run.finish(rule='run aborted by an exception in a generator after the cases counted here; see the violation',
+                              assumptions=['aborted run: later streams were not reached'],
+                              checker_cmd='cd lean && lake build && lake env lean .lake/audit/%s.lean' % pid)
     except common.InfraError as e:
         print(f'INFRA-ERROR {pid}: {e}')
         return 2
